@@ -10,6 +10,16 @@ NOTE_COMMON = ("Trusted: Lean 4.33 kernel with axioms propext/Classical.choice/Q
                "rounding modes; third-party libraries, Rust std, cffi, md5, OS are trusted. ")
 
 CLAIMED = {
+    "C02": dict(
+        text="Lean theorems: the SeqToHashes iterator (transcribed branch for branch, incl. the lagging dna_last_position_check cursor and the Ok(0) sentinel) yields, for EVERY byte string, every k and both force values, exactly the window specification: the hash of the lexicographically smaller of each upper-cased k-mer and its reverse complement, in order; error at the first window holding a non-ACGT byte, or with force the skip of exactly the windows holding it (dna_iter_eq_spec, by a loop invariant; also shows no index panic and termination). Corollaries: reverse complement / letter case give the same multiset, two pieces overlapping by k-1 give the items of the whole, short sequences give nothing (all four molecule types); amino-acid input hashes every window of the re-encoded sequence (protein_eq_spec); translated DNA yields exactly the six frames in the emitted order (translate_eq_spec). The five tables of encodings.rs are re-extracted on every run and re-checked by decide against an independently typed standard genetic code, Dayhoff and HP classes, complement involution and VALID = ACGT. Tied to the code by the seq correspondence stream (seq_to_hashes, kmers_and_hashes, add_sequence, add_protein, hash_murmur; MurmurHash3 re-implemented in Lean and in the oracle) and an independent Python oracle on every observation.",
+        note=NOTE_COMMON + "The hash function is an arbitrary parameter of the theorems (they say WHICH byte strings are hashed, in which order); MurmurHash3 itself is only compared, nothing is claimed about its distribution. A k-mer hashing to exactly 0 is dropped (0 is the iterator's in-band skip sentinel): theorems about the hashes offered to a sketch assume hash != 0; exhibited for amino-acid input of k NUL bytes with seed k (C02.4), no ACGT k-mer with hash 0 is known. Translated DNA with non-ACGT letters is modelled and compared but not judged (the statement is silent). Known findings C02.3 (a NUL byte ends the C string in add_sequence/add_protein/hash_murmur) and C02.4 (hash value 0 doubles as the skip marker); D20, C02.1, C02.2 were found by this check and are fixed in /repo (67d1f7c, d13355a, a005a3e), with regression theorems. Not proved: the pieces statement for translated input; the exact k-mer strings kmers_and_hashes pairs with hashes of translated/amino-acid input.",
+        technique="Lean 4 loop-invariant proof of an iterator against a window specification + decide over translator-regenerated tables + model/impl correspondence and independent oracle over generated sequences",
+        ref="DESIGN.md section 5 C02"),
+    "C10": dict(
+        text="Lean theorems over ALL lists of create-then-append sessions and all signature records (equal md5 under different names, repeated signatures, empty sketches, hashes to 2^64-1): zip collections are stored faithfully for EVERY session sequence (zip_sessions_faithful: manifest rows in save order with every column from the signature and the member actually holding it, no unlisted member, reload = saved set, and = saved list in order when nothing is saved twice), with termination + specification of the _n name search; directory output faithful at full strength; SQLite round trip exact (every field incl. seed, hashes through the signed 64-bit mapping with its order laws) of exactly the admitted signatures, all others refused; LCA databases return, up to order, exactly one flattened/downsampled image per accepted insert (incl. sketches empty at the database's scaled); SBT leaves; loader and saver choice for 15 file kinds over priorities re-read from the source. Regression theorems (old_variant_*) with kernel-checked counterexamples for the three repaired defects (D10, C10.2, D11) and counterexamples for the open findings C10.1/C10.4/C10.5. Tied to the code by the store stream: real files in every format, every reload path, manifest compared field by field.",
+        note=NOTE_COMMON + "JSON/gzip/zipfile/sqlite3/csv bytes are trusted (a member is the list of records it decodes to); member-name rendering assumed injective; SBT internal nodes and LCA lineages not modelled; ascending order of the hash list an LCA database returns and its _next_index recomputation are only tested; standalone-manifest/pathlist reloads are modelled as the generic load of the collection restricted by the manifest's picklist. Known findings: C10.1/C10.1b (a signature saved twice: one member, two rows), C10.3/C10.3b (empty .sig / directory cannot be reloaded, loud), C10.4 (manifest rebuilt from a zip skips <md5>.sig.gz_n members), C10.5 (SQLite-format manifest keeps one row per md5 and collection).",
+        technique="Lean 4 invariant proof over all session histories (finite-map model), pigeonhole termination proof, permutation proof for the LCA inverted index, kernel-checked counterexamples; translator for priorities/columns/constants/variant-selecting source shapes; model/impl correspondence on real files + independent multiset/manifest oracle",
+        ref="DESIGN.md section 5 C10"),
     "C14": dict(
         text="Lean theorems: (A) a twin machine applies every operation (add, add-with-abundance incl. abundance 0, add_many, add_many_with_abund, remove_many, clear, merge, add_from, downsample_scaled, both From conversions, serde round trip, md5) to the model of KmerMinHash and to the model of KmerMinHashBTree (BTreeSet/BTreeMap as ascending lists, current_max, md5 cache); btree_eq_vec proves for the current source (D14 repaired, /repo 779da1d; the translator re-reads the four repaired sites and source_has_repair fails otherwise) that parameters, hashes, abundances and md5 coincide at every handle along EVERY history of sketches that are num or scaled, not both (conversions: stable thresholds); the statement without that hypothesis is false (kernel-checked counterexample, known finding D14e); regression theorems about the unrepaired variant (agreement outside the D14 classes + four kernel-checked counterexamples) record what the repair removed; conv_preserves (given Stable), count_common / intersection_size agree. (B) the parser of -p strings is total with its exception classes characterised, never yields num and scaled together, build_template yields exactly one fresh sketch per (k, moltype) with the requested parameters, every factory-built sketch is num xor scaled, and factory_eq_direct: a factory-built sketch fed any hashes converts to exactly the directly-created sketch fed the same hashes (same JSON, same md5). Tied to the code by the twin stream (Lean twin vs real KmerMinHash+KmerMinHashBTree through the Rust harness; oracle: the two real observations are equal), the sketch stream (parameter strings from a grammar through parse/factory/sig.minhash/JSON; FASTA records into factory-built vs directly-created sketches) and, in the thorough tier, the sourmash sketch dna|protein|translate command line.",
         note=NOTE_COMMON + "The translator re-reads DEFAULTS, the x3 multiplier, the order of the parser's item tests, build_template's molecule order and builder calls, the ComputeParameters defaults and which of the two known shapes (repaired / as first found) the four D14 sites have; the twin driver runs the variant the source has; a partial repair or revert is reported as a broken tie. Hashing of sequences is C02's subject (factory_eq_direct is over hash lists; real sequences are compared impl-vs-impl by the oracle). Stable (threshold survives scaled()) is a hypothesis here, C03's theorem for scaled <= 2^31. Findings: D14a-d fixed (779da1d); known: D14e (a sketch that is both num and scaled, Rust API only) and C14.1 (-p scaled=0 / num=0 accepted).",
